@@ -1220,3 +1220,183 @@ Proof.
     replace (Nat.eqb (sn_fwd ny) b) with false by (symmetry; apply Nat.eqb_neq; auto). reflexivity.
   - cbn [k_nodes set_nodes set_arrs put_node k_length k_level k_iters k_used k_alive]. rewrite !upd_length. repeat split; auto.
 Qed.
+
+Lemma ss_remove : forall {A} (R : A -> A -> Prop) lo y hi, StronglySorted R (lo ++ y :: hi) -> StronglySorted R (lo ++ hi).
+Proof.
+  induction lo; simpl; intros. inversion H; auto. inversion H; subst. constructor. eauto.
+  apply Forall_forall. intros z Hz. eapply Forall_forall in H3; eauto. apply in_app_or in Hz. apply in_or_app. destruct Hz; auto. right; right; auto.
+Qed.
+
+Lemma node_next_ok : forall s C0 c T, SGood s C0 -> Linked s 0 c T -> (forall x, In x T -> In x C0) ->
+  node_next (search_fuel s) s c = Ok (hd_error T).
+Proof.
+  intros. unfold search_fuel. destruct (12 * (length (k_nodes s) + 2)) eqn:F; [lia|]. cbn [node_next].
+  rewrite (linked_head _ _ _ _ H0). cbn [bind]. destruct T; auto. cbn [hd_error].
+  destruct (sg_node _ _ H n0 (H1 n0 (or_introl eq_refl))) as [m [ky [M1 [_ [M3 _]]]]]. rewrite M1. cbn [bind]. rewrite M3. reflexivity.
+Qed.
+
+Lemma linked_nil_inv : forall s l x rest, Linked s l x rest -> fwd s x l = Ok None -> rest = [].
+Proof. intros. destruct rest; auto. destruct H. congruence. Qed.
+
+Lemma kstep_rm : forall rc s C0 k, SGood s C0 -> kstep_ok rc s C0 (Rm k) [].
+Proof.
+  intros rc s C0 k G. destruct rc as [[e1 e2] e3]. unfold kstep_ok, k_step, a_step. simpl. rewrite (sg_alive _ _ G). simpl.
+  unfold k_rm, a_rm. destruct (search_top s C0 false k G) as [R [R1 R2]]. rewrite R1. cbn [bind].
+  destruct R2 as [[Q _]|[[c [u [T1 [T2 [T3 T4]]]]] _]]; [discriminate|]. subst R. cbn beta iota.
+  destruct (find_live_sent s C0 k G) as [F1 F2].
+  change (find_live (r_ents (kabs s C0)) k) with (find_live (map (sent s) C0) k).
+  destruct T2 as [lo [hi [E [LO [CQ HI0]]]]]. rewrite chain_level0 in HI0, CQ. rewrite last_cons' in CQ.
+  assert (LOC : forall y, In y lo -> In y C0) by (intros; rewrite E; apply in_or_app; auto).
+  assert (HIC : forall y, In y hi -> In y C0) by (intros; rewrite E; apply in_or_app; auto).
+  assert (L00 : Linked s 0 c hi).
+  { generalize (sg_linked _ _ G 0 (Nat.le_0_l _)). rewrite chain_level0, E. intro Q. apply linked_split in Q. rewrite <- CQ in Q. apply Q. }
+  rewrite (node_next_ok s C0 c hi G L00 HIC). cbn [bind].
+  destruct hi as [|y hi']; cbn [hd_error].
+  { (* nothing at or after the key *)
+    rewrite F2. exists s, C0, (OBool false), (OBool false), []. repeat split; auto.
+    intros z Hz. rewrite E, app_nil_r in Hz. apply key_eqb_neq. apply key_ltb_neq. auto. }
+  assert (YC : In y C0) by (apply HIC; left; auto).
+  destruct (sg_node _ _ G y YC) as [ny [ky [N1 [N2 [N3 [N4 N5]]]]]]. rewrite N1. cbn [bind]. rewrite N2.
+  assert (KY : nkey s y = ky) by (eapply nkey_some; eauto).
+  assert (SSH : StronglySorted (klt s) (y :: hi')) by (eapply ss_app_r; rewrite <- E; apply (sg_sorted _ _ G)).
+  destruct (key_eqb ky k) eqn:EQ; cbn [negb].
+  2:{ (* the next key is larger: absent *)
+    rewrite F2. exists s, C0, (OBool false), (OBool false), []. repeat split; auto.
+    intros z Hz. rewrite E in Hz. apply in_app_or in Hz. destruct Hz as [Hz|Hz].
+    - apply key_eqb_neq. apply key_ltb_neq. auto.
+    - assert (GT : key_ltb k ky = true).
+      { apply key_ltb_total; [rewrite <- KY; apply HI0; left; auto | exact EQ]. }
+      destruct Hz as [Hz|Hz]. subst z. rewrite KY. apply key_eqb_neq. auto.
+      assert (FA : Forall (klt s y) hi') by (inversion SSH; auto).
+      assert (H2 : klt s y z) by (eapply Forall_forall in FA; eauto). unfold klt in H2. rewrite KY in H2.
+      apply key_eqb_neq. rewrite key_eqb_sym. apply key_ltb_neq. eapply key_ltb_trans; eauto. }
+  apply key_eqb_eq in EQ. rewrite EQ in N2, KY. clear EQ.
+  rewrite (F1 y YC KY). rewrite (sent_node _ _ _ _ N1 N2). cbn [parked existsb r_iters kabs re_id].
+  (* the list level is not negative: y lives on it *)
+  set (L := Z.to_nat (k_level s)). assert (EL : k_level s = Z.of_nat L) by (unfold L; lia).
+  generalize (sg_level _ _ G). intro LVB.
+  assert (UV : forall l, l < 0 + S L -> uv_get u l = Some (last (chain s lo l) HEADER)).
+  { intros l Hl. destruct (T3 l) as [xx [X1 X2]]. lia. rewrite X1. f_equal.
+    rewrite (levelfact_canon s C0 k lo (y :: hi') l xx E LO HI0 X2). apply last_cons'. }
+  set (U := HEADER :: C0).
+  assert (NDC : NoDup C0) by (eapply sgood_nodup; eauto).
+  assert (HNC : ~ In HEADER C0). { intro Q. destruct (sg_node _ _ G HEADER Q) as [_ [_ [_ [_ [_ [_ Q2]]]]]]. congruence. }
+  assert (SU : sub_universe U s).
+  { intros z [Hz|Hz]. subst. destruct (sg_hdr _ _ G) as [h [H1 _]]. eauto. destruct (sg_node _ _ G z Hz) as [m [kz [M1 _]]]. eauto. }
+  destruct (splice_ok (S L) 0 s u U y lo hi') as [s1 [S1 [S2 [S3 [S4 S5]]]]].
+  { unfold L, LEVEL_MAX. lia. }
+  { apply (sg_own _ _ G). }
+  { exact SU. }
+  { right; auto. }
+  { left; auto. }
+  { intros z Hz. right. rewrite E. auto. }
+  { constructor. rewrite <- E. auto. rewrite <- E. auto. }
+  { intros l _ Hl. generalize (sg_linked _ _ G l Hl). rewrite E, chain_app. auto. }
+  { intros l _ Hl. apply UV. auto. }
+  fold L. rewrite S1. cbn [bind]. simpl kx_removed. cbv iota.
+  destruct S2 as [SN [SLEN [SLV [SIT [SUS SAL]]]]].
+  assert (D1 : forall z, dnode s1 z = dnode s z) by (intros; unfold dnode; rewrite SN; auto).
+  rewrite D1, N1. cbn [bind].
+  set (ny' := {| sn_key := sn_key ny; sn_val := sn_val ny; sn_level := -1; sn_ref := sn_ref ny; sn_subs := sn_subs ny; sn_fwd := sn_fwd ny |}).
+  set (s2 := put_node s1 y ny').
+  assert (LT1 : y < length (k_nodes s1)) by (rewrite SN; eapply dnode_lt; eauto).
+  destruct (sg_hdr _ _ G) as [h [H1 [H2 H3]]].
+  destruct (own_arr _ _ S3 y ny) as [ay [AY1 AY2]]. right; auto. rewrite D1; auto.
+  destruct (deref_destroy_ok s2 y ny' k ay h) as [s3 [P1 [P2 [P3 [P4 [P5 [P6 [P7 [P8 P9]]]]]]]]].
+  { unfold s2. rewrite dnode_put_node by auto. rewrite Nat.eqb_refl. auto. }
+  { simpl. auto. }
+  { simpl. rewrite N2. auto. }
+  { auto. }
+  { unfold s2. rewrite darr_put_node. exact AY1. }
+  { unfold s2. rewrite dnode_put_node by auto. replace (Nat.eqb y HEADER) with false by (symmetry; apply Nat.eqb_neq; auto). rewrite D1. auto. }
+  rewrite P1. cbn [bind].
+  (* reading s3 on the surviving nodes *)
+  assert (D3 : forall z, z <> y -> dnode s3 z = dnode s z).
+  { intros. rewrite P2 by auto. unfold s2. rewrite dnode_put_node by auto. replace (Nat.eqb y z) with false by (symmetry; apply Nat.eqb_neq; auto). apply D1. }
+  assert (SURV : forall z, In z (HEADER :: lo ++ hi') -> z <> y /\ In z U).
+  { intros z Hz. split.
+    - intro; subst z. destruct Hz as [Hz|Hz]. congruence. rewrite E in NDC. apply NoDup_remove_2 in NDC. contradiction.
+    - destruct Hz as [Hz|Hz]. left; auto. right. rewrite E. apply in_app_or in Hz. apply in_or_app. destruct Hz; auto. right; right; auto. }
+  assert (F3 : forall z l, In z (HEADER :: lo ++ hi') -> fwd s3 z l = fwd s1 z l).
+  { intros z l Hz. destruct (SURV z Hz) as [NZ UZ]. destruct (SU z UZ) as [m M].
+    unfold fwd. rewrite D3, <- D1 by auto. rewrite D1, M. cbn [bind]. rewrite P3.
+    - unfold s2. rewrite darr_put_node. reflexivity.
+    - simpl. intro Q. apply NZ. apply (own_inj _ _ S3 z y m ny); auto. right; auto. rewrite D1; auto. rewrite D1; auto. }
+  assert (CH3 : forall X l, (forall z, In z X -> z <> y) -> chain s3 X l = chain s X l).
+  { intros. unfold chain. apply filter_ext_in'. intros z Hz. unfold at_level, nlvl. rewrite D3; auto. }
+  assert (CHX : forall X l, chain s1 X l = chain s X l).
+  { intros. unfold chain. apply filter_ext_in'. intros. unfold at_level, nlvl. rewrite D1. auto. }
+  assert (LK3 : forall l, l <= LEVEL_MAX -> Linked s3 l HEADER (chain s (lo ++ hi') l)).
+  { intros l Hl. rewrite chain_app. apply (linked_ext s1).
+    - intros z Hz. apply F3. destruct Hz as [Hz|Hz]. left; auto. right. apply in_app_or in Hz. apply in_or_app.
+      destruct Hz as [Hz|Hz]; [left|right]; unfold chain in Hz; apply filter_In in Hz; apply Hz.
+    - destruct (le_lt_dec l L).
+      + apply S5; lia.
+      + (* above the list level every chain is empty *)
+        assert (EMP : forall X, (forall z, In z X -> In z C0) -> chain s X l = []) by (intros; eapply chain_empty_above; eauto; lia).
+        rewrite (EMP lo LOC), (EMP hi'). 2:{ intros; apply HIC; right; auto. } simpl.
+        rewrite S4. 2:{ right. lia. } 2:{ left; auto. }
+        generalize (sg_linked _ _ G l Hl). rewrite (EMP C0) by auto. simpl. auto. }
+  (* shrink *)
+  assert (LV3 : k_level s3 = Z.of_nat L). { rewrite P6. unfold s2. simpl. rewrite SLV. exact EL. }
+  replace (Z.ltb (k_level s3) 0) with false by (symmetry; apply Z.ltb_ge; lia). rewrite LV3, Nat2Z.id.
+  destruct (shrink_ok L s3 LV3) as [s4 [W1 [W2 [W3 [W4 [W5 [W6 [W7 [W8 W9]]]]]]]]].
+  { intros l Hl. eexists. apply linked_head. apply LK3. unfold L, LEVEL_MAX. lia. }
+  rewrite W1. cbn [bind].
+  assert (D4 : forall c0 z, dnode (set_length s4 c0) z = dnode s3 z) by (intros; unfold dnode; cbn [k_nodes set_length]; rewrite W2; reflexivity).
+  eexists _, (lo ++ hi'), (OBool true), (OBool true), _. split; [reflexivity|]. split; [|split; [reflexivity|]].
+  - unfold a_destroy_entry. cbn beta iota zeta. f_equal. f_equal.
+    + unfold kabs, set_ents. simpl. f_equal.
+      * rewrite E. unfold del_entry. rewrite !map_app. simpl. rewrite filter_app. simpl.
+        replace (y - 1 - 0) with (y - 1) by lia.
+        assert (RID : forall z, re_id (sent s z) = z - 1) by (intros; unfold sent; destruct (dnode s z); auto).
+        rewrite (sent_node _ _ _ _ N1 N2). simpl. rewrite Nat.eqb_refl. simpl.
+        assert (KEEP : forall X, (forall z, In z X -> In z C0 /\ z <> y) ->
+                  filter (fun e => negb (Nat.eqb (re_id e) (y - 1))) (map (sent s) X) = map (sent (set_length s4 (wrap64 (k_length s4 - 1)))) X).
+        { intros X HX. rewrite filter_all_true.
+          - apply map_ext_in. intros z Hz. destruct (HX z Hz) as [Z1 Z2]. unfold sent. rewrite D4, D3; auto.
+          - apply forallb_forall. intros e He. apply in_map_iff in He. destruct He as [z [Z1 Z2]]. subst e. rewrite RID. apply negb_true_iff. apply Nat.eqb_neq.
+            destruct (HX z Z2) as [Z3 Z4]. destruct (sg_node _ _ G z Z3) as [_ [_ [_ [_ [_ [_ Z0]]]]]]. unfold HEADER in *. lia. }
+        rewrite <- (KEEP lo), <- (KEEP hi'). reflexivity.
+        { intros z Hz. split. apply HIC; right; auto. intro Q; subst z. rewrite E in NDC. apply NoDup_remove_2 in NDC. apply NDC. apply in_or_app; auto. }
+        { intros z Hz. split. apply LOC; auto. intro Q; subst z. rewrite E in NDC. apply NoDup_remove_2 in NDC. apply NDC. apply in_or_app; auto. }
+      * simpl. rewrite W2, P4. unfold s2, put_node. simpl. rewrite upd_length, SN. reflexivity.
+      * unfold hsubs. rewrite D4, D3 by auto. reflexivity.
+      * simpl. rewrite W6, P8. unfold s2. simpl. rewrite SUS. reflexivity.
+      * simpl. rewrite W7, P9. unfold s2. simpl. rewrite SAL. rewrite (sg_alive _ _ G). reflexivity.
+    + unfold r_notify. simpl. unfold hsubs. rewrite H1. reflexivity.
+  - left. set (s' := set_length s4 (wrap64 (k_length s4 - 1))).
+    assert (DS : forall z, z <> y -> dnode s' z = dnode s z). { intros. unfold s'. rewrite D4. apply D3; auto. }
+    assert (FS : forall z l, fwd s' z l = fwd s3 z l). { intros. unfold fwd, dnode, darr. simpl. rewrite W2, W3. reflexivity. }
+    assert (NY : forall z, In z (lo ++ hi') -> z <> y /\ In z C0).
+    { intros z Hz. destruct (SURV z (or_intror Hz)) as [Z1 [Z2|Z2]]; auto. subst z. split; auto. exfalso.
+      apply HNC. rewrite E. apply in_app_or in Hz. apply in_or_app. destruct Hz; auto. right; right; auto. }
+    assert (CHS : forall l, chain s' (lo ++ hi') l = chain s (lo ++ hi') l).
+    { intros. unfold chain. apply filter_ext_in'. intros z Hz. unfold at_level, nlvl. rewrite DS; auto. apply NY; auto. }
+    constructor.
+    + exists h. rewrite DS by auto. auto.
+    + intros z Hz. destruct (NY z Hz) as [Z1 Z2]. destruct (sg_node _ _ G z Z2) as [m [kz [M1 [M2 [M3 [M4 M5]]]]]].
+      exists m, kz. rewrite DS by auto. repeat split; auto; try lia.
+      (* its level is still within the list level *)
+      unfold s'. simpl. destruct (Z_le_dec (sn_level m) (k_level s4)); auto. exfalso.
+      set (lz := Z.to_nat (sn_level m)).
+      assert (fwd s3 HEADER lz = Ok None) by (apply W9; unfold lz; lia).
+      assert (chain s (lo ++ hi') lz = []). { eapply linked_nil_inv. apply LK3. unfold lz, LEVEL_MAX. lia. auto. }
+      assert (In z (chain s (lo ++ hi') lz)). { unfold chain. apply filter_In. split; auto. unfold at_level, nlvl. rewrite M1. apply Nat.leb_le. unfold lz. lia. }
+      rewrite H0 in H4. contradiction.
+    + constructor.
+      * intros z m Hz M. destruct (SURV z Hz) as [Z1 Z2]. rewrite DS in M by auto.
+        destruct (own_arr _ _ S3 z m Z2) as [a [A1 A2]]. rewrite D1; auto. exists a. split; auto.
+        unfold darr. simpl. rewrite W3. fold (darr s3 (sn_fwd m)). rewrite P3. unfold s2. rewrite darr_put_node. auto.
+        simpl. intro Q. apply Z1. apply (own_inj _ _ S3 z y m ny); auto. right; auto. rewrite D1; auto. rewrite D1; auto.
+      * intros z1 z2 m1 m2 Hz1 Hz2 M1 M2 Q. destruct (SURV z1 Hz1) as [A1 A2]. destruct (SURV z2 Hz2) as [B1 B2].
+        rewrite DS in M1, M2 by auto. apply (own_inj _ _ (sg_own _ _ G) z1 z2 m1 m2); auto.
+    + eapply ss_ext. 2:{ eapply ss_remove. rewrite <- E. apply (sg_sorted _ _ G). }
+      intros a b Ha Hb. unfold klt, nkey. rewrite !DS; auto. apply NY; auto. apply NY; auto.
+    + intros l Hl. rewrite CHS. apply (linked_ext s3). intros; apply FS. apply LK3; auto.
+    + unfold s'. simpl. unfold LEVEL_MAX in *. lia.
+    + unfold s'. simpl. rewrite W4, P5. unfold s2. simpl. rewrite SLEN, (sg_length _ _ G), wrap64_pred. f_equal.
+      rewrite E, !app_length. simpl. lia.
+    + unfold s'. simpl. rewrite W5, P7. unfold s2. simpl. rewrite SIT. apply (sg_iters _ _ G).
+    + unfold s'. simpl. rewrite W7, P9. unfold s2. simpl. rewrite SAL. apply (sg_alive _ _ G).
+Qed.
